@@ -67,6 +67,10 @@ class ExprMixin:
         if k == 'nil':
             return T.ZERO, None
         if k == 'name':
+            if ast[1] == 'ioEOF' and 'ioEOF' not in env.names:
+                return self.known_error('io.EOF'), 'error'
+            if ast[1] == 'errCancelled' and 'errCancelled' not in env.names:
+                return self.known_error('github.com/itchio/wharf/werrors.ErrCancelled'), 'error'
             return self.lookup_name(ast[1], env)
         if k == 'sel':
             # package-qualified constant?
